@@ -78,6 +78,10 @@ BoolVal(f, a, b) ==
     [] f = "or"  -> IF a + b > 0 THEN 1 ELSE 0
     [] OTHER     -> (a + b) % 2
 
+UNW == 99   \* content of a never-written array cell (outside every universe used)
+(* 1-based cell number of byte offset idx for element size es in an array of n cells; 0 = invalid access *)
+CellOf(idx, es, n) == IF idx >= 0 /\ idx % es = 0 /\ idx \div es < n THEN idx \div es + 1 ELSE 0
+
 Succ(st, s, U, Hv(_)) ==
   CASE st.op = "assign"  -> Set1(s, st.x, {EvalLE(st.e, s)}, U)
     [] st.op = "arith"   -> Set1(s, st.x, ArithVal(st.f, s[st.y], Opnd(st, s)), U)
@@ -94,6 +98,21 @@ Succ(st, s, U, Hv(_)) ==
     [] st.op = "bassert" -> IF s[st.x] = 1 THEN {s} ELSE {}
     [] st.op = "bselect" -> {Upd(s, st.x, IF s[st.c] = 1 THEN s[st.y] ELSE s[st.z])}
     [] st.op = "nop"     -> {s}
+    \* ---- arrays: an array variable holds a tuple of cells; UNW marks a cell that was never written.
+    \* Indices are byte offsets; all accesses of an array use one element size es (word-level assumption);
+    \* a misaligned or out-of-range access and a read of an unwritten cell are outside the model (no successor).
+    [] st.op = "ainit"   -> LET lb == EvalLE(st.lb, s)  ub == EvalLE(st.ub, s)  val == EvalLE(st.v, s)
+                            IN IF ~InU(val, U) THEN {}
+                               ELSE {Upd(s, st.a, [k \in DOMAIN s[st.a] |-> IF lb <= (k - 1) * st.es /\ (k - 1) * st.es <= ub THEN val ELSE UNW])}
+    [] st.op = "astore"  -> LET c == CellOf(EvalLE(st.i, s), st.es, Len(s[st.a]))  val == EvalLE(st.v, s)
+                            IN IF c = 0 \/ ~InU(val, U) THEN {} ELSE {Upd(s, st.a, [s[st.a] EXCEPT ![c] = val])}
+    [] st.op = "astore_range" ->
+                            LET lo == EvalLE(st.i, s)  hi == EvalLE(st.j, s)  val == EvalLE(st.v, s)
+                            IN IF ~InU(val, U) \/ CellOf(lo, st.es, Len(s[st.a])) = 0 \/ CellOf(hi, st.es, Len(s[st.a])) = 0 THEN {}
+                               ELSE {Upd(s, st.a, [k \in DOMAIN s[st.a] |-> IF lo <= (k - 1) * st.es /\ (k - 1) * st.es <= hi THEN val ELSE s[st.a][k]])}
+    [] st.op = "aload"   -> LET c == CellOf(EvalLE(st.i, s), st.es, Len(s[st.a]))
+                            IN IF c = 0 THEN {} ELSE IF s[st.a][c] = UNW THEN {} ELSE Set1(s, st.x, {s[st.a][c]}, U)
+    [] st.op = "aassign" -> {Upd(s, st.a, s[st.b])}
 
 SuccSet(st, S, U, Hv(_)) == UNION {Succ(st, s, U, Hv) : s \in S}
 =========================================================================
